@@ -167,6 +167,11 @@ def seeded(g):
     tree = {path: src}
     style = rng.choice(["min", "lower", "over"])
     u = frames.uri_encode(path, style)
+    twin = None
+    if rng.random() < 0.3 and f1.swapcase() != f1:
+        # a second document whose path differs only in letter case (POSIX paths are case-sensitive)
+        twin = f"{ROOT}/{d1}/{f1.swapcase()}"
+        tree[twin] = gen.small_program(rng, tag + "tw")
     nid = [10]
 
     def rid():
@@ -177,6 +182,11 @@ def seeded(g):
     ops = [gen.initialize(1, by=rng.choice(["rootPath", "rootUri", "both"])), gen.initialized(),
            gen.note("textDocument/didOpen", {"textDocument": {"uri": u, "text": src}})]
     ops.append(gen.req(rid(), "textDocument/documentSymbol", {"textDocument": {"uri": u}}))
+    if twin is not None:
+        ut = frames.uri_encode(twin, style)
+        seq = [ut, u, ut] if rng.random() < 0.5 else [ut, ut, u]
+        for x in seq:
+            ops.append(gen.req(rid(), "textDocument/documentSymbol", {"textDocument": {"uri": x}}))
     if big_line is not None:
         col = lines[big_line].index("::") + 4
         for meth in ("textDocument/hover", "textDocument/completion"):
